@@ -610,10 +610,10 @@ func c13Run(c *core.Ctx) {
 			}
 		}
 	}
-	// service-area lists: 1..16 TACs distributed over 1..3 areas (all compositions), both restriction types
+	// service-area lists: 1..16 TACs distributed over 1..4 areas (all weak compositions: areas without any TAC included), both restriction types
 	if c.Shard == 10%c.NShards {
 		for total := 1; total <= 16; total++ {
-			for areas := 1; areas <= 3 && areas <= total; areas++ {
+			for areas := 1; areas <= 4; areas++ {
 				var comp func(left, parts int, cur []int)
 				comp = func(left, parts int, cur []int) {
 					if parts == 1 {
@@ -636,7 +636,8 @@ func c13Run(c *core.Ctx) {
 						}
 						return
 					}
-					for first := 1; first <= left-(parts-1); first++ {
+					// an area may carry no TAC at all (an area given by its area code only): parts of size 0 included
+					for first := 0; first <= left; first++ {
 						comp(left-first, parts-1, append(cur, first))
 					}
 				}
@@ -702,7 +703,7 @@ func init() {
 			if tier == "thorough" {
 				n, t = "8", "6"
 			}
-			return "all 256 SST x 6 SD values; all requested-NSSAI lists of 1.." + n + " entries over a 5-entry alphabet covering every legal S-NSSAI length (1,2,4,5,8); every declared entry length 0..255 at every position of a 3-entry list with truncated tails (error half); rejected NSSAI with 0..4 entries per cause; all TAI lists of 1.." + t + " entries over an 8-entry alphabet (6 PLMNs: same, same MCC, same MNC, both different, and 2- vs 3-digit MNCs with equal numeric value) and 7..16 entries with every single-position deviation; service-area lists of 1..16 TACs in every composition over 1..3 areas, both restriction types; LADN entries and LADN-indication lists. Oracle: reference decoders/encoders written from TS 24.501 9.11.2.8, 9.11.3.37, 9.11.3.46, 9.11.3.9, 9.11.3.49, 9.11.3.29/30 (refconv) must recover exactly the input lists from the library's encoders, and the library's decoders must recover reference-encoded lists. Sequences: all ordered pairs (and a-b-a triples) of S-NSSAI conversions over 3 SSTs x 6 SDs run first in every worker — each conversion must give the octets of its own arguments whatever was converted before. LADN indication contents are handed over inside a guarded buffer (sub-slice with spare capacity and canaries) that must be unchanged afterwards."
+			return "all 256 SST x 6 SD values; all requested-NSSAI lists of 1.." + n + " entries over a 5-entry alphabet covering every legal S-NSSAI length (1,2,4,5,8); every declared entry length 0..255 at every position of a 3-entry list with truncated tails (error half); rejected NSSAI with 0..4 entries per cause; all TAI lists of 1.." + t + " entries over an 8-entry alphabet (6 PLMNs: same, same MCC, same MNC, both different, and 2- vs 3-digit MNCs with equal numeric value) and 7..16 entries with every single-position deviation; service-area lists of 1..16 TACs in every weak composition over 1..4 areas (areas without any TAC included, in every position), both restriction types; LADN entries and LADN-indication lists. Oracle: reference decoders/encoders written from TS 24.501 9.11.2.8, 9.11.3.37, 9.11.3.46, 9.11.3.9, 9.11.3.49, 9.11.3.29/30 (refconv) must recover exactly the input lists from the library's encoders, and the library's decoders must recover reference-encoded lists. Sequences: all ordered pairs (and a-b-a triples) of S-NSSAI conversions over 3 SSTs x 6 SDs run first in every worker — each conversion must give the octets of its own arguments whatever was converted before. LADN indication contents are handed over inside a guarded buffer (sub-slice with spare capacity and canaries) that must be unchanged afterwards."
 		},
 		Assumptions: []string{"the DNN inside LADN is treated as opaque octets (only the length framing is asserted)"},
 		Finish:      finishDistinct("distinct by list kind and contents; non-trivial = lists with at least two entries / areas, S-NSSAIs with an SD, LADNs with a non-empty DNN, raw contents of at least three octets"),
